@@ -52,6 +52,11 @@ fn main() {
         #[cfg(feature = "db")]
         "c14" => conc::run(&args),
         #[cfg(feature = "db")]
+        "lmdb-probe" => {
+            conc::lmdb_probe(&args);
+            return;
+        }
+        #[cfg(feature = "db")]
         "c14-growth-child" => {
             conc::growth_child(&args);
             return;
